@@ -75,8 +75,8 @@ def f_named(a: A) -> A: raise NotImplementedError
 def f_named2(b: A) -> A: raise NotImplementedError
 '''
 
-ATOMS = ["A", "B", "C", "D", "E", "F", "object", "None", "NoReturn", "int", "str",
-         "Literal[1]", "Literal[2]", "Literal['a']"]
+ATOMS = ["A", "B", "C", "D", "E", "F", "object", "None", "NoReturn", "int", "bytes",
+         "Literal[1]", "Literal[2]", "Literal[b'a']"]
 
 # depth-1 model types: every constructor over small sets of atoms
 CLS = ["A", "B", "C", "D", "E"]
@@ -87,21 +87,21 @@ def model_depth1() -> list[str]:
     for g in ["Inv", "Co", "Cn", "CoP", "CnP", "InvCo", "Sequence"]:
         for a in ["A", "B", "E"]:
             out.append(f"{g}[{a}]")
-    out += ["Sub", "CoSub", "Co[None]", "Co[NoReturn]", "Inv[None]", "Cn[object]", "Co[object]", "Sequence[str]",
+    out += ["Sub", "CoSub", "Co[None]", "Co[NoReturn]", "Inv[None]", "Cn[object]", "Co[object]", "Sequence[bytes]",
             "Sequence[int]", "Co[int]", "Co[Literal[1]]"]
-    for a in ["A", "B", "E", "int", "str", "NoReturn"]:
+    for a in ["A", "B", "E", "int", "bytes", "NoReturn"]:
         out.append(f"Tuple[{a}, ...]")
     for a in ["A", "B", "D", "Co[A]", "Sub"]:
         out.append(f"Type[{a}]")
     out += ["Tuple[()]", "Tuple[A]", "Tuple[B]", "Tuple[A, B]", "Tuple[B, A]", "Tuple[B, B]", "Tuple[A, A]",
-            "Tuple[B, E]", "Tuple[int, str]", "Tuple[str, str]", "Tuple[A, B, C]", "Tuple[None, A]"]
+            "Tuple[B, E]", "Tuple[int, bytes]", "Tuple[bytes, bytes]", "Tuple[A, B, C]", "Tuple[None, A]"]
     out += ["Callable[[], A]", "Callable[[], B]", "Callable[[], None]", "Callable[[], object]",
             "Callable[[A], A]", "Callable[[A], B]", "Callable[[B], A]", "Callable[[B], B]", "Callable[[E], A]",
             "Callable[[object], B]", "Callable[[A, B], A]", "Callable[[B, B], B]", "Callable[[A, A], A]",
-            "Callable[[None], A]", "Callable[[NoReturn], A]", "Callable[[int], str]"]
-    out += ["A | None", "None | A", "B | C", "C | B", "A | E", "B | E", "D | E", "int | str", "str | int",
-            "int | None", "Literal[1] | Literal[2]", "Literal[2] | Literal[1]", "Literal[1] | str",
-            "Literal['a'] | int", "Literal[1] | int", "A | B | E", "E | B | A", "B | C | None", "object | None"]
+            "Callable[[None], A]", "Callable[[NoReturn], A]", "Callable[[int], bytes]"]
+    out += ["A | None", "None | A", "B | C", "C | B", "A | E", "B | E", "D | E", "int | bytes", "bytes | int",
+            "int | None", "Literal[1] | Literal[2]", "Literal[2] | Literal[1]", "Literal[1] | bytes",
+            "Literal[b'a'] | int", "Literal[1] | int", "A | B | E", "E | B | A", "B | C | None", "object | None"]
     return out
 
 
@@ -117,14 +117,15 @@ def model_depth2() -> list[str]:
         "Inv[Type[A]]", "Inv[Callable[[], A]]", "Type[A] | None", "Type[A] | Type[E]", "Type[B] | Callable[[], A]",
         "Tuple[Type[B], A]", "Tuple[Callable[[], B], A]", "Callable[[Type[A]], A]", "Callable[[Callable[[], A]], A]",
         "Co[A] | Co[E]", "Inv[A] | Inv[B]", "Co[B] | Sub | None", "Tuple[A, B] | Tuple[B, A]",
-        "Tuple[A] | Tuple[A, B]", "Co[Literal[1] | Literal[2]]", "Tuple[Literal[1], Literal['a']]",
+        "Tuple[A] | Tuple[A, B]", "Co[Literal[1] | Literal[2]]", "Tuple[Literal[1], Literal[b'a']]",
         "Callable[[int], Literal[1]]", "Callable[[Literal[1]], int]", "Co[Tuple[A, B]]", "Cn[Tuple[A, B]]",
         "Co[Tuple[B, ...]]", "Sequence[Sequence[B]]", "Type[Co[B]]", "Type[Inv[A]]",
     ]
 
 
 EXTRA = [
-    "P", "PI", "P2", "PX", "PG[A]", "PG[B]", "GA", "GB", "Color", "Literal[Color.R]", "Literal[Color.G]",
+    "str", "Literal['a']", "Sequence[str]", "Tuple[str, ...]", "int | str", "Literal['a'] | int", "Tuple[int, str]",
+    "Callable[[int], str]", "P", "PI", "P2", "PX", "PG[A]", "PG[B]", "GA", "GB", "Color", "Literal[Color.R]", "Literal[Color.G]",
     "Literal[Color.R] | Literal[Color.G]", "bool", "Literal[True]", "Literal[True] | Literal[False]", "float",
     "int | float", "TD", "TD2", "TDopt", "NT", "BoundG[B]", "BoundG[A]", "WithCall", "Type[Color]",
     "Type[NT]", "Mapping[str, A]", "Mapping[str, B]", "Iterable[A]", "Iterable[B]",
